@@ -260,6 +260,14 @@ def run(ctx: Ctx, tier: str) -> Result:
     if len(good) == 1 and len(ext_writes) == 1 and init_ok:
         lpn = [l for l in paths.enclosing_loops(p, good[0][1], ac)]
         apps = [c for c in t.calls_in(ac) if isinstance(c.func, ast.Attribute) and c.func.attr == "append" and lpn and paths.within(p, c, lpn[0])]
+        if not apps and lpn:
+            # the bound method held in a local first: `append = self._children.append` ... `append(child)`
+            for c in t.calls_in(ac):
+                if isinstance(c.func, ast.Name) and paths.within(p, c, lpn[0]):
+                    lb_ = t.local_bindings(ac, c.func.id)
+                    if len(lb_) == 1 and lb_[0][0] == "assign" and isinstance(lb_[0][1][1], ast.Attribute) and lb_[0][1][1].attr == "append" \
+                            and not paths.enclosing_loops(p, lb_[0][1][1], ac):
+                        apps.append(c)
         if lpn and apps and norm(apps[0].args[0]) == norm(lpn[0].target) and norm(good[0][1].targets[0].value) == norm(lpn[0].target):
             res.ok("C05.DEPTH", {"child depth": "parent depth + 1", "children kept in order": norm(apps[0])})
         else:
